@@ -159,6 +159,10 @@ def run(run):
                   ('struct', cat['struct'], dict(subset_counts=(1, 2), seeds=((r + 1) % 5,), fmax=3 if thorough else 2)),
                   ('bitmap', cat['bitmap'], dict(subset_counts=(1, 2) if thorough else (1,), seeds=((r + 2) % 5,), fmax=2)),
                   ('open', cat['open'], dict(subset_counts=(2,), seeds=((r + 3) % 5,), fmax=2))]
+        rq = catalogue.catalogue(run.tier, seed())          # grammar-derived templates of this seed (vf/gen.py)
+        groups += [('rnd plain', rq['rnd_plain'], dict(subset_counts=(1, 2), seeds=((r + 4) % 5,))),
+                   ('rnd struct', rq['rnd_struct'], dict(subset_counts=(1, 2), seeds=(r,), fmax=2)),
+                   ('rnd bitmap', rq['rnd_bitmap'], dict(subset_counts=(1, 2), seeds=((r + 1) % 5,), fmax=2))]
         for mv, seqs in sorted(table_d_sample(run.tier, seed()).items()):
             groups.append(('tableD v%d' % mv, seqs, dict(subset_counts=(1,), seeds=((r + mv) % 5,), fmax=1, mversion=mv, compressions=(False, True))))
         ks = (0, 1, 2, 8)
